@@ -24,7 +24,7 @@ theorem regTop_inv {h : Heap} {file : File} {f : Field} {g : Grp} {ρ ρ1 : Rho}
     | some n =>
       refine ⟨?_, p1.ext, p1.dom, p1.new⟩
       simp only [renameField, regTop, Field.name, phi_of_lookup hlo]
-      exact p1.inv.set hl ha (by rw [hsrc]; exact hlo)
+      exact p1.inv.set hl (by rw [hsrc]; exact hlo)
 
 theorem readTop_spec (h : Heap) (file : File) (hh : HeapWF h) (fo : FileOK h file) (fa : Nat) (hfa : h.length ≤ fa) :
     ∀ (fs : List Field) (s : RSt) (ρ : Rho) (fd : Nat),
